@@ -129,8 +129,10 @@ class ExpSin:
         return (self.a * np.exp(self.b @ x))[:, None] * self.b + (self.c * np.cos(self.d @ x))[:, None] * self.d
 
     def abs_value(self, x):
-        x = np.asarray(x, dtype=float)
-        return np.abs(self.a) * np.exp(self.b @ x) + np.abs(self.c)
+        # Upper bound of the sum of the absolute values of the terms over the box {x': |x'| <= |x|}: callers pass
+        # either the point itself or |x| + h (as for Poly); exp(b.x') <= exp(|b|.|x|) on that box.
+        x = np.abs(np.asarray(x, dtype=float))
+        return np.abs(self.a) * np.exp(np.abs(self.b) @ x) + np.abs(self.c)
 
     def _dk_bound(self, x, j, h, order):
         x = np.asarray(x, dtype=float)
